@@ -159,3 +159,37 @@ func ZZ_C08_eject() {
 		zzvt.Assert(regs[7] == WHO || regs[7] == HUH, "error-code")
 	}
 }
+
+// ZZ_C08_collapse: a transfer (arbitrary balances, amount, destination and gas), optionally
+// after a checkpoint, followed by every way of ending the invocation (out-of-gas, panic, halt
+// without output, halt with a 32-byte output): the balances and deferred transfers that the
+// collapse function C hands on to Psi_A hold exactly the supply from before the transfer, so a
+// rolled-back debit is never paired with the deferred transfer it paid for.
+//zz:workers=8
+func ZZ_C08_collapse() {
+	_, regs, _, in := zzConservationSetup()
+	regs[10] = zzGuestBase
+	supply0 := zzSupply(in.Addition.ResultContextX)
+	if zzvt.Bool("checkpointFirst") {
+		o := checkpoint(in)
+		in.Addition = o.Addition
+	}
+	out := transfer(in)
+	var outcome any
+	switch zzvt.Range("outcome", 0, 3) {
+	case 0:
+		outcome = OUT_OF_GAS
+	case 1:
+		outcome = PANIC
+	case 2:
+		outcome = nil
+	case 3:
+		outcome = make([]byte, 32)
+	}
+	if len(out.Addition.ResultContextX.DeferredTransfers) == 1 {
+		zzvt.Cover("transfer-took-place")
+	}
+	ps, dts, _, _, _, _ := C(0, outcome, out.Addition.AccumulateArgs)
+	s1 := zzSupply(ResultContext{PartialState: ps, DeferredTransfers: dts})
+	zzvt.Assert(s1.le(supply0) && supply0.le(s1), "collapsed-supply-constant")
+}
